@@ -176,7 +176,12 @@ class Sym:
     def __round__(s, n=None):
         if s.t.is_int():
             return s
-        raise Unsupported("round() of a symbolic real")
+        if n:
+            raise Unsupported("round(x, n != 0) of a symbolic real")
+        # round half to even (Python's round and np.round agree on this)
+        k = z3.ToInt(s.t + z3.RealVal("1/2"))
+        tie = z3.ToReal(k) == s.t + z3.RealVal("1/2")
+        return Sym(z3.If(z3.And(tie, k % 2 != 0), k - 1, k))
 
     def floor(s): return s.__floor__()
     def ceil(s): return s.__ceil__()
